@@ -223,7 +223,7 @@ def memo(f):
     def g(src):
         k = (f.__name__, src)
         if k not in _MEMO:
-            if len(_MEMO) > 4000:
+            if len(_MEMO) > 12000:
                 _MEMO.clear()
             _MEMO[k] = f(src)
         return _MEMO[k]
@@ -589,9 +589,9 @@ class C43(Prop):
 
     # ---- generator
     def gen(self, rng, tier):
-        n_ops = {'quick': 110, 'thorough': 6000, 'search': 700}.get(tier, 110)
-        n_ub = {'quick': 40, 'thorough': 1800, 'search': 200}.get(tier, 40)
-        n_fz = {'quick': 400, 'thorough': 12000, 'search': 1500}.get(tier, 400)
+        n_ops = {'quick': 110, 'thorough': 4000, 'search': 700}.get(tier, 110)
+        n_ub = {'quick': 40, 'thorough': 1200, 'search': 200}.get(tier, 40)
+        n_fz = {'quick': 400, 'thorough': 10000, 'search': 1500}.get(tier, 400)
         seen = set()
         for _ in range(n_ops):
             body = gen_body(rng)
